@@ -160,6 +160,13 @@ def _conditional_nopanic(c, t):
         if len(tys) == 2 and tys[1] in PATTERN_TYS:
             return "pattern search with a %s pattern, returns bool / Option (cuts at a match boundary)" % tys[1]
         return None
+    if c == "core::slice::<impl [T]>::fill":
+        # writes `value.clone()` to every element: total when cloning is a plain copy (primitive or a
+        # crate type made of such; a std container could allocate / run user code)
+        tys = t.get("arg_tys") or []
+        if len(tys) == 2 and "std::" not in tys[1] and "alloc::" not in tys[1] and not tys[1].startswith("&"):
+            return "fills a slice with copies of a plain `%s` value" % tys[1]
+        return None
     if c in ENUMERATE_FNS:
         # `enumerate()` counts with `+= 1`, which can only overflow after usize::MAX items: impossible
         # for an iterator over memory (slice, Vec, chars, split), whose length is at most isize::MAX
@@ -350,6 +357,51 @@ def _i1_vec_index(b, ex, bb, t):
     return None
 
 
+ARRAY_RANGE_INDEX = ("std::array::<impl std::ops::IndexMut<I> for [T; N]>::index_mut", "std::array::<impl std::ops::Index<I> for [T; N]>::index")
+
+
+def _i5_array_subrange(b, ex, iv, bb, t):
+    """I5: `a[s..e]` on an array of length N cannot panic when e <= N (intervals) and e = s + n with n an
+    unsigned quantity (so s <= e; the addition itself is an overflow assert of the census)."""
+    import re
+    m = re.search(r"; (\d+)\]$", t["arg_tys"][0])
+    a = t["args"][1]
+    if not m or a["k"] not in ("copy", "move") or a["place"]["proj"]:
+        return None
+    n = int(m.group(1))
+    st = iv.state_at(b.term_loc(bb))
+    if st is None:
+        return "A: unreachable"
+    rl = a["place"]["local"]
+    hi = iv.get(st, (rl, (1,)), "usize")
+    rng = strip_refs(ex.call_args(bb)[1])
+    if not (rng[0] == "agg" and str(rng[1]).endswith("ops::Range") and len(rng[3]) == 2) or hi[1] > n:
+        return None
+    s_, e_ = linear(rng[3][0]), linear(rng[3][1])
+    if s_ is None or e_ is None:
+        return None
+    diff = dict(e_[0])
+    for x, cx in s_[0].items():
+        diff[x] = diff.get(x, 0) - cx
+    diff = {x: cx for x, cx in diff.items() if cx != 0}
+
+    def unsigned(x):
+        x = strip_refs(x)
+        if x[0] == "cast":
+            return x[1] in UNSIGNED_BITS and unsigned(x[2])
+        if x[0] == "var":
+            return b.local_ty(x[1]) in UNSIGNED_BITS
+        if x[0] == "call":
+            return x[1].endswith("Option::<T>::unwrap") and strip_refs(x[2][0])[0] == "call" and strip_refs(x[2][0])[1].endswith("<impl char>::to_digit")
+        if x[0] == "field" and x[2] == "0" and x[1][0] == "downcast":      # payload of Some(to_digit(..))
+            y = strip_refs(x[1][1])
+            return y[0] == "call" and y[1].endswith("<impl char>::to_digit")
+        return False
+    if e_[1] - s_[1] >= 0 and all(cx > 0 and unsigned(x) for x, cx in diff.items()):
+        return "I5: end in [%s, %s] <= %d and end - start = %s >= 0" % (hi[0], hi[1], n, " + ".join(show_expr(x, b)[:30] for x in diff) or str(e_[1] - s_[1]))
+    return None
+
+
 def _i2_digit_unwrap(b, ex, bb, t):
     """I2: `c.to_digit(r).unwrap()` dominated by the true edge of `c.is_digit(r)`."""
     args = ex.call_args(bb)
@@ -418,6 +470,14 @@ def r15_1(ctx):
                     desc = "%s.%s" % (show_expr(arg, b)[:70], nm)
                     ctx.ob("%s:%s(%s)" % (short, nm, _unwrap_label(arg)), how is not None, b.where(b.term_loc(bb)),
                            how or "`%s()` on a value that can be None/Err for some input string: this input panics instead of returning an error" % desc)
+                elif c in ARRAY_RANGE_INDEX and len(t.get("arg_tys") or []) == 2 and t["arg_tys"][1].startswith("std::ops::Range<"):
+                    how = None
+                    for iv in ivs:
+                        how = _i5_array_subrange(b, ex, iv, bb, t)
+                        if how is None:
+                            break
+                    ctx.ob("%s:subrange#%d" % (short, n_by_kind[c]), how is not None, b.where(b.term_loc(bb)),
+                           how or "sub-slice `a[s..e]` of an array not shown to satisfy s <= e <= len: %s" % b.text_at(b.term_loc(bb))[:90])
                 elif c == VEC_INDEX:
                     how = _i1_vec_index(b, ex, bb, t)
                     ctx.ob("%s:index#%d" % (short, n_by_kind[c]), how is not None, b.where(b.term_loc(bb)),
@@ -657,10 +717,30 @@ def r15_4(ctx):
                 from wa.mir import alias_of
                 rows.add(alias_of(b, idx[0])[0])
                 cols.add(alias_of(b, idx[1])[0])
+    rd = b.reaching()
+    # constant ranges `a..b` over cursor-typed locals that occur in the body: (start local, end local)
+    ranges = set()
+    for loc, st in b.iter_stmts():
+        if st["k"] == "assign" and st["rv"]["k"] == "aggregate" and str(st["rv"].get("adt", "")).endswith("ops::Range"):
+            e = ex.rvalue(st["rv"], loc)
+            if len(e[3]) == 2 and e[3][0][0] == "var" and e[3][1][0] == "var":
+                ranges.add((e[3][0][1], e[3][1][1]))
+    # a column index that merely walks a run `col..run_end` starting at the cursor is not a second cursor
+    def walks_from(c):
+        ds = [(loc, k) for loc, k in rd.all_sites(c)]
+        if len(ds) != 1 or ds[0][1] != "whole" or ds[0][0][1] >= len(b.stmts(ds[0][0][0])):
+            return None
+        e = strip_refs(ex.rvalue(b.stmts(ds[0][0][0])[ds[0][0][1]]["rv"], ds[0][0]))
+        if e[0] == "field" and e[1][0] == "downcast" and strip_refs(e[1][1])[0] == "call" and strip_refs(e[1][1])[1].endswith("Range<A>>::next"):
+            starts = {s_ for s_, e_ in ranges if any(x == ("agg",) or (x[0] == "agg" and str(x[1]).endswith("ops::Range") and len(x[3]) == 2 and x[3][0][0] == "var" and x[3][0][1] == s_)
+                                                       for x in data_slice(ex, strip_refs(e[1][1])))}
+            return starts
+        return None
+    runners = {c for c in cols if (walks_from(c) or set()) & (cols - {c})}
+    cols -= runners
     if len(rows) != 1 or len(cols) != 1:
         raise ShapeNotRecognised("from_fen: board cursor not recognised (rows %s, cols %s)" % (rows, cols))
     row, col = next(iter(rows)), next(iter(cols))
-    rd = b.reaching()
 
     def defs_of(l):
         out = []
@@ -669,6 +749,23 @@ def r15_4(ctx):
                 out.append((loc, ex.rvalue(b.stmts(loc[0])[loc[1]]["rv"], loc)))
         return out
     rdefs, cdefs = defs_of(row), defs_of(col)
+
+    def run_step(e):
+        """`col = run_end` where run_end = col + n (n an unsigned count) and the range `col..run_end` is
+        taken somewhere in the body (filled in one go, or walked by a loop): the cursor jumps over the
+        run it has just blanked."""
+        e = strip_refs(e)
+        if e[0] != "var" or e[1] == col:
+            return False
+        ds = [ex.rvalue(b.stmts(loc[0])[loc[1]]["rv"], loc) for loc, k in rd.all_sites(e[1]) if k == "whole" and loc[1] < len(b.stmts(loc[0]))]
+        if len(ds) != 1 or len(rd.all_sites(e[1])) != 1:
+            return False
+        d = strip_refs(ds[0])
+        if not (d[0] == "bin" and d[1] == "Add"):
+            return False
+        ops = [strip_refs(d[2]), strip_refs(d[3])]
+        return any(o[0] == "var" and o[1] == col for o in ops) and (col, e[1]) in ranges
+    cruns = [e for _, e in cdefs if run_step(e)]
     def enum_counter(e):
         """e is the running index of an enumerated in-memory iteration (`for (i, x) in v.iter().enumerate()`):
         it starts at 0 and grows by one per iteration by the definition of `enumerate`."""
@@ -699,8 +796,11 @@ def r15_4(ctx):
     inc1 = lambda es, l: all(e[1] == "Add" and e[3] == ("const", 1) and e[2][0] == "var" and e[2][1] == l for e in es) and bool(es)
     # the row advances once per FEN row: one `row += 1`, or it is `2 + i` for the index i of the FEN row
     row_steps = (inc1(rinc, row) and len(rinc) == 1 and not renum) or (len(renum) == 1 and not rinc)
-    ctx.ob("from_fen:cursor-steps", row_steps and inc1(cinc, col) and len(cinc) == 2, b.file,
-           "row advances by one per FEN row (%d sites), column by one per square or skipped square (%d sites)" % (len(rinc) + len(renum), len(cinc)))
+    # the column advances in two places: by one after a piece, and over a run of skipped squares
+    # (one by one in a counted loop, or by a jump to the end of the run just blanked)
+    ctx.ob("from_fen:cursor-steps", row_steps and inc1(cinc, col) and len(cinc) + len(cruns) == 2, b.file,
+           "row advances by one per FEN row (%d sites), column by one per square or skipped square (%d sites, %d of them a jump over a blanked run)" % (
+               len(rinc) + len(renum), len(cinc) + len(cruns), len(cruns)))
     # row-complete check: an Err return under Ne(col, 10) after the inner loop
     complete = False
     for s in b.normal:
